@@ -24,6 +24,11 @@ pub struct Case {
     /// bytes (the program's input, and whatever the debugger reads when it pauses again)
     #[serde(default)]
     pub shared: Option<Vec<u8>>,
+    /// 0: nothing; otherwise the script begins with a crowd of 15..257 `break add`s on consecutive
+    /// words and ends with `continue`s among which members of the crowd are removed
+    /// (`dbgcheck::crowd_addrs` / `crowd_tail`)
+    #[serde(default)]
+    pub crowd: u16,
 }
 
 /// Debugger and program share standard input: whatever the interleaving of command reads and
@@ -102,8 +107,21 @@ pub fn judge_case(c: &Case) -> Obs {
         }
         _ => {}
     }
-    let cmds: Vec<Cmd> = c.cmds.iter().map(|r| make_control_cmd(&p, r)).collect();
-    let aliases: Vec<u8> = c.cmds.iter().map(|r| r.alias).collect();
+    let mut cmds: Vec<Cmd> = c.cmds.iter().map(|r| make_control_cmd(&p, r)).collect();
+    let mut aliases: Vec<u8> = c.cmds.iter().map(|r| r.alias).collect();
+    if c.crowd != 0 {
+        let addrs = crowd_addrs(&p, c.crowd);
+        let mut all: Vec<Cmd> = addrs.iter().map(|a| Cmd::BreakAdd(crate::refdbg::Loc::Abs(*a, 0))).collect();
+        let np = all.len();
+        all.extend(cmds);
+        all.extend(crowd_tail(&addrs, c.crowd));
+        cmds = all;
+        let mut al = vec![0u8; np];
+        al.extend(aliases);
+        al.resize(cmds.len(), 0);
+        aliases = al;
+        obs.label("crowd-of-breakpoints");
+    }
     let script = script_text(&cmds, &aliases, cmds.len(), false, [None, Some("exit"), Some("quit")][c.end as usize % 3]);
     let shown = show_case(&p, &script, &[]);
     obs.show = Some(shown.clone());
@@ -167,9 +185,12 @@ fn cases() -> impl Strategy<Value = Case> {
         4..40,
     );
     let spec = crate::pick![5 => proggen::with_spin(proggen::prog_spec(12)).boxed(), 1 => proggen::raw_image_spec(super::c03::image_words()).boxed()];
-    (spec, ending, crate::pick![3 => mixed, 2 => steppy], 0u8..3).prop_map(|(mut spec, ending, cmds, end)| {
+    (spec, ending, crate::pick![3 => mixed, 2 => steppy], 0u8..3, crate::pick![7 => Just(0u16), 1 => 1u16..=2000]).prop_map(|(mut spec, ending, mut cmds, end, crowd)| {
         spec.ending = ending;
-        Case { spec, cmds, end, shared: None }
+        if crowd != 0 {
+            cmds.truncate(8);
+        }
+        Case { spec, cmds, end, shared: None, crowd }
     })
 }
 
@@ -185,7 +206,7 @@ fn shared_cases() -> impl Strategy<Value = Case> {
         spec
     });
     let trailing = prop::collection::vec(prop::sample::select(b"0123456789+.=# \n;".to_vec()), 0..12);
-    (spec, prop::collection::vec(raw_cmd(), 0..8), 0u8..3, trailing).prop_map(|(spec, cmds, end, trailing)| Case { spec, cmds, end, shared: Some(trailing) })
+    (spec, prop::collection::vec(raw_cmd(), 0..8), 0u8..3, trailing).prop_map(|(spec, cmds, end, trailing)| Case { spec, cmds, end, shared: Some(trailing), crowd: 0 })
 }
 
 impl Prop for C16 {
@@ -193,8 +214,8 @@ impl Prop for C16 {
         "C16"
     }
     fn rule(&self) -> &'static str {
-        "ProgGen programs whose reference run stops within a known bound, with endings weighted towards computed jumps to 0xFFFF, below the origin, to >= 0xFE00 and parking on HALT x scripts of 0-11 mixed (or 4-39 step-heavy) resuming / breakpoint commands (step, step into k incl. 65535, step out, continue, break add/remove) ended by end of input, `exit` or `quit`. \
-         Oracle (the statement's own bound, decided by deterministic fuel, never a timer): with ticks = iterations of the run loop (hook H3), execs = executed instructions (H4), cmds = commands + 1: with inner = iterations of the debugger's own loop (H6), which shares the fuel: the session returns before 8*(bound + cmds) + 64 iterations in total, ticks <= 2*(execs + cmds) + 4 and inner <= 3*(execs + cmds) + 6. \
+        "ProgGen programs whose reference run stops within a known bound, with endings weighted towards computed jumps to 0xFFFF, below the origin, to >= 0xFE00 and parking on HALT x scripts of 0-11 mixed (or 4-39 step-heavy) resuming / breakpoint commands (step, step into k incl. 65535, step out, continue, break add/remove) ended by end of input, `exit` or `quit`; an eighth of the scripts begin with a crowd of 15..257 `break add`s on consecutive words and end with up to 40 `continue`s among which members of the crowd are removed. \
+         Oracle (the statement's own bound, decided by deterministic fuel, never a timer; a session that burns 20 s of its thread's CPU time without one iteration of either hooked loop - hook H7 - is reported as spinning): with ticks = iterations of the run loop (hook H3), execs = executed instructions (H4), cmds = commands + 1: with inner = iterations of the debugger's own loop (H6), which shares the fuel: the session returns before 8*(bound + cmds) + 64 iterations in total, ticks <= 2*(execs + cmds) + 4 and inner <= 3*(execs + cmds) + 6. \
          Plus, through the real binary: programs that read input here and there, with a script of control commands on standard input followed by bytes that are program input (debugger and program share the stream, `;` or newline separated): the process must end; the verdict 'blocked for good' is read from the process state (its only thread waits in the futex system call, no CPU time used, four samples 0.4 s apart), never from a time limit. Non-trivial: the session reaches a PC outside user space or parks on HALT and issues >= 1 resuming command. Distinct = hash(source, script)."
     }
     fn level(&self) -> &'static str {
